@@ -148,6 +148,7 @@ func (w *world) buildGenesis(nVals int) {
 		w.byAddr[string(a.addr)] = a
 		return a
 	}
+	var ethOut []int // validators whose output address may be handed to an eth-key client below
 	stakes := []uint64{1_000_000, 1_000_000, 2_000_000, 500_000, 1_000_000, 3, 1_000_000}
 	if (c.Prop == "C02" || c.Prop == "C13") && t.Chance(1, 2) {
 		// tiny weighted stakes: subsets whose power is exactly one short of floor(2T/3)+1 exist
@@ -158,6 +159,7 @@ func (w *world) buildGenesis(nVals int) {
 	for i := 0; i < nVals; i++ {
 		a := addActor("bls", fmt.Sprintf("val%d", i), true)
 		out := a.addr
+		ethOut = append(ethOut, len(w.genesis.Validators))
 		w.genesis.Validators = append(w.genesis.Validators, &fsm.Validator{Address: a.addr, PublicKey: a.key.PublicKey().Bytes(), NetAddress: fmt.Sprintf("tcp://val%d", i),
 			StakedAmount: stakes[(i+t.Intn(3))%len(stakes)], Committees: []uint64{1}, Output: out, Compound: t.Chance(1, 2)})
 		w.genesis.Accounts = append(w.genesis.Accounts, &fsm.Account{Address: a.addr, Amount: 50_000_000})
@@ -184,6 +186,19 @@ func (w *world) buildGenesis(nVals int) {
 	}
 	if c.Prop == "C14" {
 		w.slashGenesis()
+	}
+	if c.Prop == "C05" || c.Prop == "C06" {
+		// some validators pay out to (and are controlled by) an eth-key account
+		for _, vi := range ethOut {
+			if t.Chance(1, 3) {
+				for _, a := range w.actors {
+					if a.kind == "ethsecp" {
+						w.genesis.Validators[vi].Output = a.addr
+						break
+					}
+				}
+			}
+		}
 	}
 	for i, kind := range []string{"ed25519", "ethsecp"} {
 		a := addActor(kind, fmt.Sprintf("mallory%d", i), false)
